@@ -16,7 +16,7 @@ import (
 type c07Params struct {
 	IDRel string // local id lt | gt | eq remote id
 	ASRel string // local AS lt | gt remote AS (lt4 | gt4: both above 65535)
-	Mode  string // ordered | simul | estfirst | race-ka | race-close | race-bad | race-est
+	Mode  string // ordered | simul | estfirst | race-ka | race-close | race-bad | race-est | race-new | oc-new
 	First string // which connection's OPEN is sent first: out | in
 	Late  bool   // the inbound connection arrives before the outbound dial completes
 	Seed  uint64
@@ -71,7 +71,7 @@ func c07World(t *testing.T, p c07Params) rt.Result {
 			}
 			return hz.DialRefuse, 0
 		}
-		if p.Mode == "race-new" {
+		if p.Mode == "race-new" || p.Mode == "oc-new" {
 			lat = 5 * time.Millisecond
 		}
 		t0 := w.Now()
@@ -146,7 +146,27 @@ func c07World(t *testing.T, p c07Params) rt.Result {
 			}
 			return
 		}
-		if p.Late {
+		if p.Mode == "oc-new" {
+			// the first connection is taken to OpenConfirm (the remote withholds its KEEPALIVE) before the
+			// second one comes into being; the second one must still be served, and the collision is
+			// resolved by the identifiers when its OPEN arrives
+			if p.First == "out" {
+				oc = w.WaitOut(1, time.Minute)
+				if oc == nil {
+					w.Violate("no outbound connection")
+					return
+				}
+				w.Settle()
+				oc.SendOpen(oc.StdOpen(ras, 90, rid))
+				w.Settle()
+				ic = w.Connect(ps.Addr)
+			} else {
+				ic = w.Connect(ps.Addr)
+				w.Settle()
+				ic.SendOpen(ic.StdOpen(ras, 90, rid))
+				oc = w.WaitOut(1, time.Minute)
+			}
+		} else if p.Late {
 			ic = w.Connect(ps.Addr)
 			oc = w.WaitOut(1, time.Minute)
 		} else {
@@ -161,7 +181,18 @@ func c07World(t *testing.T, p c07Params) rt.Result {
 		w.Settle()
 		conns := map[string]*hz.RConn{"out": oc, "in": ic}
 		for d, c := range conns {
+			if p.Mode == "oc-new" && d == p.First {
+				if ms := c.Msgs(); len(ms) != 2 || ms[1].Type != wire.TypeKeepalive {
+					w.Violate("setup: [mode oc-new] OPEN exchange on the first (%s) connection: %s", d, typesOf(ms))
+					return
+				}
+				continue
+			}
 			if ms := c.Msgs(); len(ms) != 1 || ms[0].Type != wire.TypeOpen {
+				if p.Mode == "oc-new" {
+					w.Violate("[mode oc-new] the %s connection that appeared while the other one was in OpenConfirm did not receive exactly an OPEN: %s (a connection collision is resolved by the identifiers, not by refusing the newcomer)", d, typesOf(ms))
+					return
+				}
 				w.Violate("setup: %s connection did not receive exactly an OPEN: %s (both connections must be in OpenSent)", d, typesOf(ms))
 				return
 			}
@@ -177,6 +208,10 @@ func c07World(t *testing.T, p c07Params) rt.Result {
 		case "ordered":
 			A.SendMsg("OPEN", openOf(A))
 			w.Settle()
+			B.SendMsg("OPEN", openOf(B))
+			w.Settle()
+			strict, wantSurvivor = true, survivor
+		case "oc-new":
 			B.SendMsg("OPEN", openOf(B))
 			w.Settle()
 			strict, wantSurvivor = true, survivor
@@ -301,7 +336,7 @@ func c07World(t *testing.T, p c07Params) rt.Result {
 
 func TestC07(t *testing.T) {
 	c := rt.Get()
-	modes := []string{"ordered", "simul", "estfirst", "race-est", "race-ka", "race-close", "race-bad", "race-new"}
+	modes := []string{"ordered", "simul", "estfirst", "race-est", "race-ka", "race-close", "race-bad", "race-new", "oc-new"}
 	rel := [][2]string{{"lt", "lt"}, {"gt", "lt"}, {"eq", "lt"}, {"eq", "gt"}, {"lt", "gt"}, {"gt", "gt"}, {"far-lt", "lt"}, {"far-gt", "lt"}, {"far-lt", "gt"}, {"far-gt", "gt"}, {"eq", "lt4"}, {"eq", "gt4"}}
 	seeds := c.N(48, 3000)
 	idx := 0
